@@ -1751,6 +1751,7 @@ func ruleAtomAlg(p *Prog, r *Result) {
 	}
 	sort.Slice(opVals, func(i, j int) bool { return opVals[i] < opVals[j] })
 	var unsound, loose, errs, open2 []string
+	strictLoose := map[string][]string{}
 	n := 0
 	for _, ov := range opVals {
 		on := ops[ov]
@@ -1891,6 +1892,16 @@ func ruleAtomAlg(p *Prog, r *Result) {
 				if bad != "" {
 					unsound = append(unsound, fmt.Sprintf("%s -> %s loses %s", desc, it.showScanRep(res[0], kind, g), bad))
 				}
+				// strict comparisons: the boundary key itself is outside the region
+				if (on == "Gt" || on == "Lt") && ((sh.left == "K" && sh.right == "S") || (sh.left == "S" && sh.right == "K")) {
+					for _, pc := range probes[g.sig(nsym)] {
+						inRes, ok := memberOfScan(pc, res[0], sc, nsym)
+						if ok && inRes && pc.rank[nsym] == pc.rank[lits[0]] {
+							strictLoose[on] = append(strictLoose[on], fmt.Sprintf("%s -> %s reads the boundary key %q", desc, it.showScanRep(res[0], kind, g), pc.rep[nsym]))
+							break
+						}
+					}
+				}
 				if extra != "" && on != "NotEq" {
 					loose = append(loose, fmt.Sprintf("%s -> %s reads %s outside the pinned region", desc, it.showScanRep(res[0], kind, g), extra))
 				}
@@ -1908,6 +1919,11 @@ func ruleAtomAlg(p *Prog, r *Result) {
 	r.add(len(errs) == 0, "optimizeExpr|interpretable", p.Pos(fn.Pos()), fmt.Sprintf("%d atom configurations evaluated; %d outside the abstract domain %v", n, len(errs), head(errs, 3)))
 	r.add(len(unsound) == 0, "optimizeExpr|sound", p.Pos(fn.Pos()), fmt.Sprintf("the region of an atom contains every key on which the atom can be true, in all %d configurations; %d counter-configurations %v", n, len(unsound), head(unsound, 4)))
 	r.add(len(loose) == 0, "optimizeExpr|tight", p.Pos(fn.Pos()), fmt.Sprintf("key-pinning atoms read nothing outside the pinned region and use point reads for equality and IN, in all %d configurations; %d counter-configurations %v", n, len(loose), head(loose, 4)))
+	for _, on := range []string{"Gt", "Lt"} {
+		sl := strictLoose[on]
+		sort.Strings(sl)
+		r.add(len(sl) == 0, "optimizeExpr|strict|"+on, p.Pos(fn.Pos()), fmt.Sprintf("the region of a strict comparison (%s) leaves the boundary key out; %d counter-configurations %v", on, len(sl), head(sl, 2)))
+	}
 	r.add(len(open2) == 0, "optimizeExpr|closed", p.Pos(fn.Pos()), fmt.Sprintf("no atom yields a range open on both sides or with start > end (the algebra's domain leaves them out); %d counter-configurations %v", len(open2), head(open2, 3)))
 	r.floor("atom configurations evaluated", n, 500)
 }
